@@ -112,10 +112,10 @@ class CIGAR(list):
     cigar = CIGAR()
     if not valid:
       if version == "gfa1":
-        if not re.match(r"^([0-9]+[MIDNSHPX=])+$", string):
+        if not re.match(r"^([0-9]+[MIDNSHPX=])+\Z", string):
           raise gfapy.FormatError()
       elif version == "gfa2":
-        if not re.match(r"^([0-9]+[MIDP])+$", string):
+        if not re.match(r"^([0-9]+[MIDP])+\Z", string):
           raise gfapy.FormatError()
     for m in re.finditer("([0-9]+)([MIDNSHPX=])", string):
       try:
